@@ -32,8 +32,10 @@ SeiEbsp(msgs) == Escape(SeiRaw(msgs))
 ClockFields(kind, tol, k) ==
     [on |-> kind # "off", full |-> kind = "full", sflag |-> kind \in {"s", "sm", "smh"}, mflag |-> kind \in {"sm", "smh"}, hflag |-> kind = "smh",
      units |-> k % 2 = 0, counting |-> (5 + k) % 32, disc |-> k % 2 = 1, dropped |-> k % 3 = 0, nframes |-> 200 + k,
-     seconds |-> 59 - k, minutes |-> 7 + k, hours |-> 23 - k, tol |-> tol, offset |-> IF tol = 0 THEN 0 ELSE IF tol = 31 THEN 2147483647 - k ELSE (k + 1) % 8,
-     cttype |-> k % 3, soffset |-> IF tol = 0 THEN 0 ELSE IF k % 2 = 1 THEN 0 - ((k % 7) + 1) ELSE (k % 7) + 1]
+     seconds |-> 59 - k, minutes |-> 7 + k, hours |-> 23 - k, tol |-> tol, \* offsets that fit the coded width: unsigned tol bits (time_code), two's complement tol bits (pic_timing)
+     offset |-> IF tol = 0 THEN 0 ELSE IF tol = 31 THEN 2147483647 - k ELSE IF tol >= 3 THEN (k + 1) % 8 ELSE (k + 1) % Pow2(tol),
+     cttype |-> k % 3, soffset |-> IF tol = 0 THEN 0 ELSE IF tol >= 4 THEN (IF k % 2 = 1 THEN 0 - ((k % 7) + 1) ELSE (k % 7) + 1)
+                                   ELSE IF k % 2 = 1 THEN 0 - Pow2(tol - 1) ELSE Pow2(tol - 1) - 1]
 TimePart(c) == IF c.full THEN U(6, c.seconds) \o U(6, c.minutes) \o U(5, c.hours)
                ELSE B(c.sflag) \o (IF c.sflag THEN U(6, c.seconds) \o B(c.mflag) \o (IF c.mflag THEN U(6, c.minutes) \o B(c.hflag) \o (IF c.hflag THEN U(5, c.hours) ELSE <<>>) ELSE <<>>) ELSE <<>>)
 \* HEVC time_code clock (9-bit n_frames, time_offset_length coded per clock)
